@@ -712,5 +712,11 @@ func runC12(f *common.Flags, res *common.Result, m *mdl) {
 			}
 		}
 	}
+	if f.Tier == "thorough" && f.Replay == "" {
+		// independently of the shim: real SIGKILLs / EIOs on the unmodified binary
+		if n := straceSweep(f, res, real); n >= 0 {
+			res.Notes = append(res.Notes, fmt.Sprintf("strace sweep on the unmodified binary: %d runs (SIGKILL / EIO at the k-th invocation of each of %s, per thread), direct oracles only", n, straceCalls))
+		}
+	}
 	res.Rule = fmt.Sprintf("%d scenarios (an entry whose output file was removed, as Trim may do, with a source that delivers other bytes of the same length on the second pass AND a stop at every operation; new entry, overwrite, same content again, output shared with another id, partial output left by an earlier interruption, pre-damaged outputs: truncated / bit-flipped / longer / emptied; sizes 0, 1, 2, 5000, 100000; source-reader faults: error at offset r in either pass, early EOF, different bytes on the second pass, Seek failures); in each scenario without reader fault EVERY file operation of the real Put (observed through the os shim) is made to fail, to be a short write / short read, and the run is stopped before it, after it and in the middle of a write; after each, all lookups run in a fresh Cache value; compared with the faulty semantics of the model: result, operation trace, all lookups, contents of all files; direct oracles: SHA-256 of GetBytes, size of GetFile's file, from undamaged starts SHA-256 of GetFile's file, unrelated ids unchanged, no panic", len(scs))
 }
